@@ -185,12 +185,6 @@ fn run_seed(base: u64, num: u64, i: u64) -> (u64, u64) {
     (mix(base, num, i), mix(base ^ 0x5bec, num, i / SPEC_BLOCK))
 }
 
-struct Found<C> {
-    index: u64,
-    case: C,
-    fail: Fail,
-}
-
 /// Executes with panic capture: a panic inside the oracle/harness itself is a harness error.
 fn exec_guarded<K: Check>(k: &K, c: &K::Case, st: &mut Stats) -> Result<Result<ExecOk, Fail>, String> {
     match catch_unwind(AssertUnwindSafe(|| k.exec(c, st))) {
@@ -250,12 +244,234 @@ fn write_replay<K: Check>(k: &K, seed: u64, index: u64, case: &K::Case, fail: &F
     Ok(path)
 }
 
+/// What one worker (thread or child process) brings back.
+#[derive(Default)]
+pub struct WorkerOut {
+    pub stats: Stats,
+    pub fps: Vec<u64>,
+    pub evals: u64,
+    pub samples: Vec<(u64, J)>,
+    /// (run index, clause, detail) of violations not listed as known findings
+    pub failures: Vec<(u64, String, String)>,
+    /// class → (occurrences, first run)
+    pub known: BTreeMap<String, (u64, u64)>,
+    pub harness_err: Option<String>,
+}
+
+impl WorkerOut {
+    fn to_j(&self) -> J {
+        json!({
+            "stats": self.stats.c.iter().map(|(k, v)| (k.to_string(), json!(v))).collect::<serde_json::Map<String, J>>(),
+            "fps": self.fps,
+            "evals": self.evals,
+            "samples": self.samples.iter().map(|(i, j)| json!([i, j])).collect::<Vec<_>>(),
+            "failures": self.failures.iter().map(|(i, c, d)| json!([i, c, d])).collect::<Vec<_>>(),
+            "known": self.known.iter().map(|(k, v)| (k.clone(), json!([v.0, v.1]))).collect::<serde_json::Map<String, J>>(),
+            "harness_err": self.harness_err,
+        })
+    }
+    fn from_j(j: &J, names: &[&'static str]) -> WorkerOut {
+        let mut o = WorkerOut::default();
+        if let Some(m) = j.get("stats").and_then(|v| v.as_object()) {
+            for (k, v) in m {
+                // counter names are 'static in-process; across the process boundary they are re-interned
+                let name: &'static str = names.iter().copied().find(|n| n == k).unwrap_or_else(|| Box::leak(k.clone().into_boxed_str()));
+                o.stats.c.insert(name, v.as_u64().unwrap_or(0));
+            }
+        }
+        o.fps = j.get("fps").and_then(|v| v.as_array()).map(|a| a.iter().filter_map(|x| x.as_u64()).collect()).unwrap_or_default();
+        o.evals = j.get("evals").and_then(|v| v.as_u64()).unwrap_or(0);
+        o.samples = j.get("samples").and_then(|v| v.as_array()).map(|a| a.iter().filter_map(|x| Some((x.get(0)?.as_u64()?, x.get(1)?.clone()))).collect()).unwrap_or_default();
+        o.failures = j.get("failures").and_then(|v| v.as_array()).map(|a| a.iter().filter_map(|x| Some((x.get(0)?.as_u64()?, x.get(1)?.as_str()?.to_string(), x.get(2)?.as_str()?.to_string()))).collect()).unwrap_or_default();
+        if let Some(m) = j.get("known").and_then(|v| v.as_object()) {
+            for (k, v) in m {
+                o.known.insert(k.clone(), (v.get(0).and_then(|x| x.as_u64()).unwrap_or(0), v.get(1).and_then(|x| x.as_u64()).unwrap_or(0)));
+            }
+        }
+        o.harness_err = j.get("harness_err").and_then(|v| v.as_str()).map(|s| s.to_string());
+        o
+    }
+}
+
+/// The loop of one worker over the run indices w, w+n, w+2n, …
+/// `announce`: print "R <index>" before each run (child-process mode, so that the parent can
+/// attribute an abort). `stop_after`: shared lowest failing index (threads) or None.
+fn worker_loop<K: Check>(k: &K, tier: Tier, seed: u64, w: u64, n: u64, total: u64, known: &[Known], stop_after: Option<&AtomicU64>, cur: Option<&Mutex<Option<(u64, Instant)>>>, announce: bool) -> WorkerOut {
+    use std::io::Write;
+    let mut out = WorkerOut::default();
+    let mut i = w;
+    let stdout = std::io::stdout();
+    while i < total {
+        if let Some(sa) = stop_after {
+            if i > sa.load(Ordering::Relaxed) {
+                break;
+            }
+        }
+        if announce {
+            let mut l = stdout.lock();
+            let _ = writeln!(l, "R {}", i);
+            let _ = l.flush();
+        }
+        let (s, ss) = run_seed(seed, k.num(), i);
+        if let Some(c) = cur {
+            *c.lock().unwrap() = Some((i, Instant::now()));
+        }
+        let case = match catch_unwind(AssertUnwindSafe(|| k.gen(s, ss, tier))) {
+            Ok(c) => c,
+            Err(_) => {
+                out.harness_err = Some(format!("run {}: panic inside the case generator", i));
+                break;
+            }
+        };
+        let r = exec_guarded(k, &case, &mut out.stats);
+        if let Some(c) = cur {
+            *c.lock().unwrap() = None;
+        }
+        out.evals += 1;
+        match r {
+            Err(m) => {
+                out.harness_err = Some(format!("run {}: panic inside the oracle/harness: {}", i, m));
+                break;
+            }
+            Ok(Ok(ok)) => {
+                if ok.nontrivial {
+                    out.fps.push(k.fingerprint(&case));
+                    if out.samples.len() < 2 {
+                        let j = k.to_j(&case);
+                        if j.to_string().len() < 3000 {
+                            out.samples.push((i, j));
+                        }
+                    }
+                }
+            }
+            Ok(Err(f)) => {
+                // listed known finding? then it is counted, not reported
+                let class = k.classify(&case, &f);
+                let listed = class.as_ref().and_then(|c| known.iter().find(|e| e.property == k.id() && e.status == "known" && &e.class == c));
+                if let (Some(c), Some(_)) = (&class, listed) {
+                    let e = out.known.entry(c.clone()).or_insert((0, i));
+                    e.0 += 1;
+                    e.1 = e.1.min(i);
+                } else {
+                    if let Some(sa) = stop_after {
+                        sa.fetch_min(i, Ordering::Relaxed);
+                    }
+                    out.failures.push((i, f.clause, f.detail));
+                    if stop_after.is_none() {
+                        break;
+                    }
+                }
+            }
+        }
+        i += n;
+    }
+    out
+}
+
+/// Entry point of a child process in isolated mode: runs its share and prints the result.
+pub fn child_worker<K: Check>(k: &K, tier: Tier, w: u64, n: u64, total: u64) -> i32 {
+    let known = load_known().unwrap_or_default();
+    let out = worker_loop(k, tier, base_seed(), w, n, total, &known, None, None, true);
+    println!("OUT {}", out.to_j());
+    0
+}
+
+/// Child process: minimise run `index` and write its replay file; prints the VIOLATION line.
+pub fn child_minimise<K: Check>(k: &K, tier: Tier, index: u64) -> i32 {
+    let seed = base_seed();
+    let (s, ss) = run_seed(seed, k.num(), index);
+    let case = k.gen(s, ss, tier);
+    let mut st = Stats::default();
+    match exec_guarded(k, &case, &mut st) {
+        Ok(Err(f)) => {
+            let orig = case.clone();
+            let (mc, mf, used) = minimise(k, case, f, 3000);
+            println!("{}: minimised with {} re-executions; clause '{}': {}", k.id(), used, mf.clause, mf.detail);
+            match write_replay(k, seed, index, &mc, &mf, Some(&orig)) {
+                Ok(p) => {
+                    println!("VIOLATION property={} replay={}", k.id(), p.display());
+                    1
+                }
+                Err(e) => {
+                    eprintln!("harness error: {}", e);
+                    2
+                }
+            }
+        }
+        _ => {
+            eprintln!("harness error: run {} did not fail when re-executed for minimisation", index);
+            2
+        }
+    }
+}
+
+fn spawn_children<K: Check>(k: &K, tier: Tier, total: u64, n: u64, seed: u64, names: &[&'static str]) -> (Vec<WorkerOut>, Vec<u64>) {
+    use std::io::{BufRead, BufReader};
+    use std::process::{Command, Stdio};
+    let exe = std::env::current_exe().expect("current_exe");
+    let mut outs: Vec<WorkerOut> = Vec::new();
+    let mut aborted: Vec<u64> = Vec::new();
+    let mut children = Vec::new();
+    for w in 0..n {
+        let child = Command::new(&exe)
+            .args(["--worker", k.id(), tier.name(), &w.to_string(), &n.to_string(), &total.to_string()])
+            .env("VERIF_SEED", seed.to_string())
+            .env("VERIF_ROOT", root_dir())
+            .stdout(Stdio::piped())
+            .stderr(Stdio::null())
+            .spawn()
+            .expect("spawn worker");
+        children.push(child);
+    }
+    let handles: Vec<_> = children
+        .into_iter()
+        .map(|mut ch| {
+            std::thread::spawn(move || {
+                let rd = BufReader::new(ch.stdout.take().unwrap());
+                let mut last: Option<u64> = None;
+                let mut out: Option<String> = None;
+                for line in rd.lines().map_while(|l| l.ok()) {
+                    if let Some(r) = line.strip_prefix("R ") {
+                        last = r.trim().parse().ok();
+                    } else if let Some(o) = line.strip_prefix("OUT ") {
+                        out = Some(o.to_string());
+                    }
+                }
+                let status = ch.wait().ok();
+                (last, out, status.map(|s| s.success()).unwrap_or(false))
+            })
+        })
+        .collect();
+    for h in handles {
+        let (last, out, ok) = h.join().expect("reader thread");
+        match (out, ok) {
+            (Some(o), true) => match serde_json::from_str::<J>(&o) {
+                Ok(j) => outs.push(WorkerOut::from_j(&j, names)),
+                Err(e) => outs.push(WorkerOut { harness_err: Some(format!("worker output: {}", e)), ..Default::default() }),
+            },
+            _ => {
+                // the child died (abort on a refused or failed allocation, stack overflow, kill)
+                match last {
+                    Some(i) => aborted.push(i),
+                    None => outs.push(WorkerOut { harness_err: Some("a worker process died before its first run".into()), ..Default::default() }),
+                }
+            }
+        }
+    }
+    (outs, aborted)
+}
+
 pub fn run_check<K: Check>(k: &K, tier: Tier, runs_override: Option<u64>) -> i32 {
+    run_check_mode(k, tier, runs_override, false)
+}
+
+/// `isolated`: workers are child processes (needed when a run may abort the process, C17).
+pub fn run_check_mode<K: Check>(k: &K, tier: Tier, runs_override: Option<u64>, isolated: bool) -> i32 {
     let t0 = Instant::now();
     let seed = base_seed();
     let nthreads = threads();
     let total = runs_override.unwrap_or_else(|| k.runs(tier));
-    println!("{}: seed={} tier={} runs={} threads={}", k.id(), seed, tier.name(), total, nthreads);
+    println!("{}: seed={} tier={} runs={} {}={}", k.id(), seed, tier.name(), total, if isolated { "worker_processes" } else { "threads" }, nthreads);
     let known = match load_known() {
         Ok(v) => v,
         Err(e) => {
@@ -264,134 +480,96 @@ pub fn run_check<K: Check>(k: &K, tier: Tier, runs_override: Option<u64>) -> i32
         }
     };
 
-    let first_fail = AtomicU64::new(u64::MAX);
-    let found: Mutex<Vec<Found<K::Case>>> = Mutex::new(Vec::new());
-    let harness_err: Mutex<Option<String>> = Mutex::new(None);
-    let merged: Mutex<(Stats, Vec<u64>, u64, Vec<(u64, J)>)> = Mutex::new((Stats::default(), Vec::new(), 0, Vec::new()));
-    // watchdog bookkeeping: (run index, start instant) per worker
-    let current: Vec<Arc<Mutex<Option<(u64, Instant)>>>> = (0..nthreads).map(|_| Arc::new(Mutex::new(None))).collect();
-    let done = AtomicU64::new(0);
-    let known_counts: Mutex<BTreeMap<String, (u64, u64)>> = Mutex::new(BTreeMap::new());
-
-    std::thread::scope(|scope| {
-        for w in 0..nthreads {
-            let cur = current[w].clone();
-            let (first_fail, found, harness_err, merged, done, known_counts, known) = (&first_fail, &found, &harness_err, &merged, &done, &known_counts, &known);
-            scope.spawn(move || {
-                let mut st = Stats::default();
-                let mut fps: Vec<u64> = Vec::new();
-                let mut evals = 0u64;
-                let mut samples: Vec<(u64, J)> = Vec::new();
-                let mut i = w as u64;
-                while i < total {
-                    if i > first_fail.load(Ordering::Relaxed) || harness_err.lock().unwrap().is_some() {
-                        break;
+    let mut outs: Vec<WorkerOut> = Vec::new();
+    let mut aborted: Vec<u64> = Vec::new();
+    if isolated {
+        let names: Vec<&'static str> = k.expected_probes();
+        let (o, a) = spawn_children(k, tier, total, nthreads as u64, seed, &names);
+        outs = o;
+        aborted = a;
+    } else {
+        let first_fail = AtomicU64::new(u64::MAX);
+        let current: Vec<Arc<Mutex<Option<(u64, Instant)>>>> = (0..nthreads).map(|_| Arc::new(Mutex::new(None))).collect();
+        let done = AtomicU64::new(0);
+        let collected: Mutex<Vec<WorkerOut>> = Mutex::new(Vec::new());
+        std::thread::scope(|scope| {
+            for w in 0..nthreads {
+                let cur = current[w].clone();
+                let (first_fail, done, collected, known) = (&first_fail, &done, &collected, &known);
+                scope.spawn(move || {
+                    let out = worker_loop(k, tier, seed, w as u64, nthreads as u64, total, known, Some(first_fail), Some(&cur), false);
+                    if out.harness_err.is_some() {
+                        first_fail.store(0, Ordering::Relaxed);
                     }
-                    let (s, ss) = run_seed(seed, k.num(), i);
-                    *cur.lock().unwrap() = Some((i, Instant::now()));
-                    let case = match catch_unwind(AssertUnwindSafe(|| k.gen(s, ss, tier))) {
-                        Ok(c) => c,
-                        Err(_) => {
-                            *harness_err.lock().unwrap() = Some(format!("run {}: panic inside the case generator", i));
-                            break;
-                        }
-                    };
-                    let r = exec_guarded(k, &case, &mut st);
-                    *cur.lock().unwrap() = None;
-                    evals += 1;
-                    match r {
-                        Err(m) => {
-                            *harness_err.lock().unwrap() = Some(format!("run {}: panic inside the oracle/harness: {}", i, m));
-                            break;
-                        }
-                        Ok(Ok(ok)) => {
-                            if ok.nontrivial {
-                                fps.push(k.fingerprint(&case));
-                                if samples.len() < 2 {
-                                    let j = k.to_j(&case);
-                                    if j.to_string().len() < 3000 {
-                                        samples.push((i, j));
-                                    }
+                    collected.lock().unwrap().push(out);
+                    done.fetch_add(1, Ordering::SeqCst);
+                });
+            }
+            // watchdog
+            let (done, current, first_fail) = (&done, &current, &first_fail);
+            scope.spawn(move || loop {
+                if done.load(Ordering::SeqCst) as usize == nthreads {
+                    break;
+                }
+                std::thread::sleep(Duration::from_millis(200));
+                for c in current.iter() {
+                    let g = c.lock().unwrap();
+                    if let Some((i, t)) = *g {
+                        if t.elapsed() > Duration::from_secs(WATCHDOG_SECS) {
+                            drop(g);
+                            let (s, ss) = run_seed(seed, k.num(), i);
+                            let case = k.gen(s, ss, tier);
+                            let f = Fail::new("hang", format!("run did not finish within {} s", WATCHDOG_SECS));
+                            first_fail.fetch_min(i, Ordering::Relaxed);
+                            match write_replay(k, seed, i, &case, &f, None) {
+                                Ok(p) => {
+                                    println!("{}: run {} hangs", k.id(), i);
+                                    println!("VIOLATION property={} replay={}", k.id(), p.display());
+                                    std::process::exit(1);
+                                }
+                                Err(e) => {
+                                    eprintln!("harness error: {}", e);
+                                    std::process::exit(2);
                                 }
                             }
                         }
-                        Ok(Err(f)) => {
-                            // listed known finding? then it is counted, not reported
-                            let class = k.classify(&case, &f);
-                            let listed = class.as_ref().and_then(|c| known.iter().find(|e| e.property == k.id() && e.status == "known" && &e.class == c));
-                            if let (Some(c), Some(_)) = (&class, listed) {
-                                let mut kc = known_counts.lock().unwrap();
-                                let e = kc.entry(c.clone()).or_insert((0, i));
-                                e.0 += 1;
-                                e.1 = e.1.min(i);
-                            } else {
-                                first_fail.fetch_min(i, Ordering::Relaxed);
-                                found.lock().unwrap().push(Found { index: i, case, fail: f });
-                            }
-                        }
                     }
-                    i += nthreads as u64;
                 }
-                let mut m = merged.lock().unwrap();
-                m.0.merge(&st);
-                m.1.extend(fps);
-                m.2 += evals;
-                m.3.extend(samples);
-                done.fetch_add(1, Ordering::SeqCst);
             });
-        }
-        // watchdog
-        let (done, current, first_fail) = (&done, &current, &first_fail);
-        scope.spawn(move || loop {
-            if done.load(Ordering::SeqCst) as usize == nthreads {
-                break;
-            }
-            std::thread::sleep(Duration::from_millis(200));
-            for c in current.iter() {
-                let g = c.lock().unwrap();
-                if let Some((i, t)) = *g {
-                    if t.elapsed() > Duration::from_secs(WATCHDOG_SECS) {
-                        drop(g);
-                        let (s, ss) = run_seed(seed, k.num(), i);
-                        let case = k.gen(s, ss, tier);
-                        let f = Fail::new("hang", format!("run did not finish within {} s", WATCHDOG_SECS));
-                        first_fail.fetch_min(i, Ordering::Relaxed);
-                        match write_replay(k, seed, i, &case, &f, None) {
-                            Ok(p) => {
-                                println!("{}: run {} hangs", k.id(), i);
-                                println!("VIOLATION property={} replay={}", k.id(), p.display());
-                                std::process::exit(1);
-                            }
-                            Err(e) => {
-                                eprintln!("harness error: {}", e);
-                                std::process::exit(2);
-                            }
-                        }
-                    }
-                }
-            }
         });
-    });
+        outs = std::mem::take(&mut *collected.lock().unwrap());
+    }
 
-    if let Some(e) = harness_err.lock().unwrap().clone() {
+    if let Some(e) = outs.iter().find_map(|o| o.harness_err.clone()) {
         eprintln!("harness error: {}", e);
         return 2;
     }
 
-    let (stats, mut fps, evals, mut samples) = {
-        let mut m = merged.lock().unwrap();
-        (m.0.clone(), std::mem::take(&mut m.1), m.2, std::mem::take(&mut m.3))
-    };
+    let mut stats = Stats::default();
+    let mut fps: Vec<u64> = Vec::new();
+    let mut evals = 0u64;
+    let mut samples: Vec<(u64, J)> = Vec::new();
+    let mut failures: Vec<(u64, String, String)> = Vec::new();
+    let mut kc: BTreeMap<String, (u64, u64)> = BTreeMap::new();
+    for o in outs {
+        stats.merge(&o.stats);
+        fps.extend(o.fps);
+        evals += o.evals;
+        samples.extend(o.samples);
+        failures.extend(o.failures);
+        for (c, (n, first)) in o.known {
+            let e = kc.entry(c).or_insert((0, first));
+            e.0 += n;
+            e.1 = e.1.min(first);
+        }
+    }
     fps.sort_unstable();
     fps.dedup();
     samples.sort_by_key(|s| s.0);
     samples.truncate(3);
+    failures.sort_by_key(|f| f.0);
+    aborted.sort_unstable();
 
-    let mut found = std::mem::take(&mut *found.lock().unwrap());
-    found.sort_by_key(|f| f.index);
-    let violation = found.into_iter().next();
-
-    let kc = known_counts.lock().unwrap().clone();
     for (class, (n, first)) in &kc {
         let what = known.iter().find(|e| e.property == k.id() && &e.class == class).map(|e| e.what.clone()).unwrap_or_default();
         println!("KNOWN-FINDING: property={} class={} occurrences={} first_run={} {}", k.id(), class, n, first, what);
@@ -399,18 +577,55 @@ pub fn run_check<K: Check>(k: &K, tier: Tier, runs_override: Option<u64>) -> i32
 
     let mut exit = 0;
     let mut violations = 0;
-    if let Some(v) = violation {
+    let first_abort = aborted.first().copied();
+    let first_failure = failures.first().map(|f| f.0);
+    if first_abort.is_some() && first_abort.unwrap_or(u64::MAX) <= first_failure.unwrap_or(u64::MAX) {
+        // a worker process died during this run: reported unminimised
+        let i = first_abort.unwrap();
         violations = 1;
         exit = 1;
-        println!("{}: run {} violates clause '{}': {}", k.id(), v.index, v.fail.clause, v.fail.detail);
-        let orig = v.case.clone();
-        let (mc, mf, used) = minimise(k, v.case, v.fail, 3000);
-        println!("{}: minimised with {} re-executions; clause '{}': {}", k.id(), used, mf.clause, mf.detail);
-        match write_replay(k, seed, v.index, &mc, &mf, Some(&orig)) {
+        let (s, ss) = run_seed(seed, k.num(), i);
+        let case = k.gen(s, ss, tier);
+        let f = Fail::new("abort", "the process running this case died (allocation refused by the 1 GiB cap or failed, or stack overflow)".into());
+        println!("{}: run {} kills its worker process", k.id(), i);
+        match write_replay(k, seed, i, &case, &f, None) {
             Ok(p) => println!("VIOLATION property={} replay={}", k.id(), p.display()),
             Err(e) => {
                 eprintln!("harness error: cannot write replay file: {}", e);
                 return 2;
+            }
+        }
+    } else if let Some((index, clause, detail)) = failures.into_iter().next() {
+        violations = 1;
+        exit = 1;
+        println!("{}: run {} violates clause '{}': {}", k.id(), index, clause, detail);
+        if isolated {
+            // minimise in a child: a shrunk case may abort
+            let exe = std::env::current_exe().expect("current_exe");
+            let st = std::process::Command::new(&exe).args(["--minimise", k.id(), tier.name(), &index.to_string()]).env("VERIF_SEED", seed.to_string()).env("VERIF_ROOT", root_dir()).status();
+            if !matches!(st.map(|s| s.code()), Ok(Some(1))) {
+                let (s, ss) = run_seed(seed, k.num(), index);
+                let case = k.gen(s, ss, tier);
+                match write_replay(k, seed, index, &case, &Fail { clause, detail }, None) {
+                    Ok(p) => println!("VIOLATION property={} replay={}", k.id(), p.display()),
+                    Err(e) => {
+                        eprintln!("harness error: cannot write replay file: {}", e);
+                        return 2;
+                    }
+                }
+            }
+        } else {
+            let (s, ss) = run_seed(seed, k.num(), index);
+            let case = k.gen(s, ss, tier);
+            let orig = case.clone();
+            let (mc, mf, used) = minimise(k, case, Fail { clause, detail }, 3000);
+            println!("{}: minimised with {} re-executions; clause '{}': {}", k.id(), used, mf.clause, mf.detail);
+            match write_replay(k, seed, index, &mc, &mf, Some(&orig)) {
+                Ok(p) => println!("VIOLATION property={} replay={}", k.id(), p.display()),
+                Err(e) => {
+                    eprintln!("harness error: cannot write replay file: {}", e);
+                    return 2;
+                }
             }
         }
     }
@@ -445,9 +660,10 @@ pub fn run_check<K: Check>(k: &K, tier: Tier, runs_override: Option<u64>) -> i32
             "known_finding_occurrences": kc.iter().map(|(c, (n, _))| (c.clone(), json!(n))).collect::<serde_json::Map<String, J>>(),
             "components": {
                 "real": ["TagIterator", "TagWriter", "nonblocking::TagIteratorAsync + into_stream", "tools", "spec_util", "easy_ebml!-generated StaticSpec (part of the runs)"],
-                "stub": ["std::io::Read source (SimReader)", "std::io::Write sink (SimWriter)", "futures::AsyncRead source + single-threaded executor", "runtime specification table behind DTag", "API-call driver"]
+                "stub": ["std::io::Read source (SimReader)", "std::io::Write sink (SimWriter)", "futures::AsyncRead source + single-threaded executor", "runtime specification table behind DTag", "API-call driver", "counting global allocator (C17)"]
             },
-            "threads": nthreads,
+            "workers": nthreads,
+            "worker_kind": if isolated { "child processes" } else { "threads" },
         },
         "assumptions": k.assumptions(),
         "wall_s": wall,
@@ -516,6 +732,25 @@ pub fn replay_check<K: Check>(k: &K, j: &J, path: &str) -> i32 {
                 println!("VIOLATION property={} replay={}", k.id(), path);
                 1
             }
+        }
+    }
+}
+
+/// Replay for checks whose runs may abort the process: the case is re-executed in a child.
+pub fn replay_isolated(id: &str, path: &str) -> i32 {
+    let exe = std::env::current_exe().expect("current_exe");
+    match std::process::Command::new(&exe).args(["--replay-worker", path]).env("VERIF_ROOT", root_dir()).status() {
+        Ok(s) => match s.code() {
+            Some(c) => c,
+            None => {
+                println!("replay: the process running the case died (abort reproduced)");
+                println!("VIOLATION property={} replay={}", id, path);
+                1
+            }
+        },
+        Err(e) => {
+            eprintln!("harness error: {}", e);
+            2
         }
     }
 }
